@@ -206,8 +206,11 @@ where
             let eval_point_opt = if com_data.commitment.is_chopped() {
                 // When the commitment is in chopped form, we require that it be evaluated
                 // in a single point.
+                // Its point set then contains exactly that point. (Note that
+                // `point_indices` holds global point indices, which must not be
+                // used to index into a point set.)
                 debug_assert!(com_data.point_indices.len() == 1);
-                Some(point_sets[com_data.set_index][com_data.point_indices[0]])
+                Some(point_sets[com_data.set_index][0])
             } else {
                 None
             };
